@@ -1784,6 +1784,12 @@ impl Ms {
                 (m.id, m.executed, m.deposit_returned, m.rejected_before_expiry)
             };
             let o = &obs[i];
+            if !executed && dep.refund_failed && returned == 0 && o.status == Status::Open && w.props[i].deposit_taken {
+                // 20 million seconds / 2 million blocks after creation, far beyond any maximum voting period, the
+                // proposal still has not expired: it can never fail, so its deposit can never be recovered
+                h.violate("C15/recover/proposal-never-expires-deposit-locked", format!("proposal {id} is still Open (expires {:?}) long after the maximum voting period {:?}", o.expires, w.period));
+                return false;
+            }
             if executed || o.status != Status::Rejected || !dep.refund_failed || returned > 0 {
                 continue;
             }
